@@ -634,7 +634,7 @@ func (ex *Exec) appendBuiltin(st *State, args []Value, rt types.Type, pos token.
 // contracts at call sites
 
 func (ex *Exec) calleeFrame(fn *ssa.Function, sig *types.Signature, args []Value, pkg *types.Package) *Frame {
-	fr := &Frame{regs: map[ssa.Value]Value{}, named: map[string]*Cell{}, params: map[string]Value{}, cells: map[*ssa.Alloc]*Cell{}, phiCells: map[*ssa.Phi]*Cell{}}
+	fr := &Frame{regs: map[ssa.Value]Value{}, named: map[string][]*Cell{}, params: map[string]Value{}, cells: map[*ssa.Alloc]*Cell{}, phiCells: map[*ssa.Phi]*Cell{}}
 	fr.fn = fn
 	i := 0
 	if sig.Recv() != nil {
@@ -687,7 +687,7 @@ func (ex *Exec) applyContract(fr *Frame, st *State, ct *Contract, fn *ssa.Functi
 		}
 	} else {
 		// interface method: receiver passed as args[0]
-		cf = &Frame{regs: map[ssa.Value]Value{}, named: map[string]*Cell{}, params: map[string]Value{}}
+		cf = &Frame{regs: map[ssa.Value]Value{}, named: map[string][]*Cell{}, params: map[string]Value{}}
 		cf.params["recv"] = args[0]
 		for j := 0; j < sig.Params().Len(); j++ {
 			cf.params[sig.Params().At(j).Name()] = args[1+j]
@@ -698,7 +698,7 @@ func (ex *Exec) applyContract(fr *Frame, st *State, ct *Contract, fn *ssa.Functi
 		env := &SpecEnv{ex: ex, fr: cf, st: s, old: old, vars: map[string]Value{}, assume: assume, ctx: True, pkg: pkg}
 		env.useLocals = false
 		if cf.fn == nil {
-			env.fr = &Frame{fn: fr.fn, params: cf.params, named: map[string]*Cell{}}
+			env.fr = &Frame{fn: fr.fn, params: cf.params, named: map[string][]*Cell{}}
 			env.fr.fn = fr.fn
 		}
 		return env
@@ -802,6 +802,29 @@ func (ex *Exec) havocSpecLoc(env *SpecEnv, st *State, e ast.Expr) {
 				names, sorts := elemFamilies(t)
 				for i, n := range names {
 					st.setHeap(n, Fresh("elemfam", sorts[i]))
+				}
+				return
+			case "structfamily":
+				// structfamily(T): any field of any object of struct type T may change
+				t := env.resolveType(call.Args[0])
+				if t == nil {
+					specErr("structfamily: unknown type %s", exprStr(call.Args[0]))
+				}
+				key := typeKey(t)
+				st.logWrite(&WriteRec{Kind: "structfamily", Key: key})
+				loggedElem := map[string]bool{}
+				for _, lf := range leavesOf(t) {
+					if lf.ElemKey != "" {
+						// array-typed fields live in the element family of their element type:
+						// that whole family is havocked (an over-approximation)
+						if !loggedElem[lf.ElemKey] {
+							loggedElem[lf.ElemKey] = true
+							st.logWrite(&WriteRec{Kind: "elemfamily", Key: lf.ElemKey})
+						}
+						st.setHeap("E|"+lf.ElemKey+"|"+lf.ElemLeaf, Fresh("structfam", ArraySort(RefSort, lf.Sort)))
+						continue
+					}
+					st.setHeap("H|"+key+"|"+lf.Name, Fresh("structfam", ArraySort(RefSort, lf.Sort)))
 				}
 				return
 			case "mapfamily":
